@@ -1,4 +1,4 @@
-From RsdnsModel Require Import Base Client.
+From RsdnsModel Require Import Base RecordSet Client.
 From RsdnsModel.Proofs Require Import ClientProofs.
 From RsdnsModel.Properties Require Import C16.
 Open Scope N_scope.
@@ -9,4 +9,8 @@ Check (C16_leftover_accepted_only_if_matching : forall std id qname qtype qclass
   udp_receive std id qname qtype qclass (pre ++ d :: post) = Ok (Some (d, fl)) ->
   Forall (fun x => accept_datagram std id qname qtype qclass x = Ok None) pre ->
   accept_datagram std id qname qtype qclass d = Ok (Some fl)).
-Print Assumptions C16_leftovers_ignored. Print Assumptions C16_leftover_accepted_only_if_matching.
+Check (C16_typed_query_ignores_history : forall std old d bs ty,
+  lenN old = bs ->
+  typed_parse_input std old d bs = recv_into bs d /\
+  from_msg (typed_parse_input std old d bs) ty = from_msg (recv_into bs d) ty).
+Print Assumptions C16_leftovers_ignored. Print Assumptions C16_leftover_accepted_only_if_matching. Print Assumptions C16_typed_query_ignores_history.
